@@ -235,9 +235,24 @@ func init() {
 					"op_update_password": 3, "register": 1, "confirm": 1}),
 				BadSecret: 30, ThreshGaps: 5, SmallGaps: 20, FaultRate: []int{0, 0, 60}[r.Intn(3)]}
 		},
-		Oracle:        newC07Oracle,
-		Nontrivial:    anyReach("c07_cookie_"),
-		RequiredReach: []string{"c07_cookie_authenticated", "c07_cookie_issued", "c07_dead_cookie_refused_spent", "c07_dead_cookie_refused_unknown", "c07_dead_cookie_refused_revoked", "c07_halfauth_cleared", "c07_plain_start_after_rm_start"},
+		Oracle:     newC07Oracle,
+		Nontrivial: anyReach("c07_cookie_"),
+		// one run in eight presents the same cookie from several browsers whose
+		// requests overlap (c07conc.go); the others are sequential histories
+		Run: func(t *testing.T, seed uint64, tier string) *RunResult {
+			if seed%8 == 0 {
+				return c07ConcExec(t, c07ConcGenerate(seed, tier), false)
+			}
+			return profiles["C07"].defaultRun(t, seed, tier)
+		},
+		Replay: func(t *testing.T, plan Plan, keepTrace bool) *RunResult {
+			if plan.Mode == "c07conc" {
+				return c07ConcExec(t, plan, keepTrace)
+			}
+			return profiles["C07"].defaultReplay(t, plan, keepTrace)
+		},
+		RequiredReach: []string{"c07_cookie_authenticated", "c07_cookie_issued", "c07_dead_cookie_refused_spent", "c07_dead_cookie_refused_unknown", "c07_dead_cookie_refused_revoked", "c07_halfauth_cleared", "c07_plain_start_after_rm_start",
+			"c07_conc_exactly_one"},
 	})
 	register(&Profile{
 		ID: "C06",
